@@ -20,6 +20,7 @@ import (
 	"github.com/anishathalye/porcupine"
 	"github.com/pion/transport/v3/deadline"
 	"github.com/pion/transport/v3/packetio"
+	"verifharness/internal/gstate"
 	"verifharness/internal/res"
 	"verifharness/internal/sched"
 )
@@ -233,9 +234,20 @@ func runOne(sc *scen, st sched.Strategy, settle bool, hit map[int]bool) result {
 	}
 	if out == sched.Quiescent {
 		// state predicate at the quiescent point
+		// a pending reader counts as parked only when its goroutine really sits in Buffer.Read's select (two samples)
 		parked := 0
+		inSelect := func() map[int64]bool {
+			m := map[int64]bool{}
+			for _, g := range gstate.Snapshot() {
+				if g.State == "select" && g.Has("packetio.(*Buffer).Read") {
+					m[g.ID] = true
+				}
+			}
+			return m
+		}
+		s1, s2 := inSelect(), inSelect()
 		for _, t := range s.Pending() {
-			if strings.HasPrefix(t.Name, "R") {
+			if strings.HasPrefix(t.Name, "R") && s1[t.GoID] && s2[t.GoID] {
 				parked++
 			}
 		}
